@@ -14,7 +14,9 @@ RULE = (
     "optimizer=None (baseline), the default pipeline, each of the five exported passes alone, and three "
     "Hypothesis-drawn pass lists (subset / permutation / repetition, length <= 8). Oracle: same outcome class "
     "and same tree as the baseline for the optimized interpreter and for code generated from the optimized "
-    "rules; a configuration whose Parser cannot be built is a violation. Non-trivial: the configuration "
+    "rules; a configuration whose Parser cannot be built is a violation. Plus an exhaustive skip-until matrix: "
+    "every ordered list of 1-3 stop strings over {a, b, aa, ab, ba, bb} x three rule shapes x every input over "
+    "{a, b, x} of length <= 4 (quick) / 5 (thorough) x {skip alone, default pipeline} x {interpreter, generated}. Non-trivial: the configuration "
     "rewrote at least one rule (tree_view differs from the baseline) and the parse consumed input or failed "
     "beyond offset 0; distinct by hash of (grammar, configuration, mode, rule, input)."
 )
@@ -88,6 +90,55 @@ def eval_case(modes, case):
     return f"[{cfg_name(cfg)}:{which}] {cls}: baseline {str(base['int'][0])[:300]} vs optimized {str(outs[0])[:300]}"
 
 
+def run_skip_matrix(ctx: Ctx, modes, idx):
+    """Exhaustive skip-until matrix: every ordered list of 1-3 stop strings over {a, b, aa, ab, ba, bb} in
+    r = @{ (!(s1 | s2 | ..) ~ ANY)* ~ ANY? ~ ANY? } (and the + form, and a non-atomic rule of a grammar
+    without trivia), x every input over {a, b, x} of length <= 5, configurations skip alone and default."""
+    import itertools
+
+    stops_pool = ["a", "b", "aa", "ab", "ba", "bb"]
+    lists = []
+    for n in (1, 2, 3):
+        lists.extend(itertools.permutations(stops_pool, n))
+    maxlen = 4 if ctx.tier == "quick" else 5
+    inputs = ["".join(p) for n in range(maxlen + 1) for p in itertools.product("abx", repeat=n)]
+    calls = [("r", i, 0) for i in inputs]
+    k = 0
+    for stops in lists:
+        for form, mod in (("star", "@"), ("plus", ""), ("star", "")):
+            k += 1
+            if k % 16 != idx:
+                continue
+            inner = ("str", stops[0]) if len(stops) == 1 else ("grp", ("alt", tuple(("str", x) for x in stops)))
+            body = ("grp", ("seq", (("not", inner), ("id", "ANY"))))
+            rep = (form, body)
+            rules = [("r", mod, ("seq", (rep, ("opt", ("id", "ANY")), ("opt", ("id", "ANY")))) if form == "star"
+                      else ("alt", (("seq", (rep, ("opt", ("id", "ANY")))), ("id", "ANY"))))]
+            text = gprint.grammar_text(rules)
+            base = modes.raw.call("pestverif.modes:eval_grammar", {"text": text, "calls": calls, "gen": False})
+            if base["load"][0] != "ok":
+                ctx.count("frontend_rejected")
+                continue
+            ctx.count("skip_matrix_grammars")
+            for cfg in ("opt", (1,)):
+                res = run_config(modes, cfg, {"text": text, "calls": calls, "gen": True})
+                if res["load"][0] != "ok":
+                    continue
+                for which, outs in (("int", res["int"]), ("gen", res["gen"])):
+                    for call, b, g in zip(calls, base["int"], outs):
+                        ctx.evals += 1
+                        cls = compare(b, g)
+                        if cls in (None, "skip"):
+                            continue
+                        case = {"rules": [["r", mod, __import__("pestverif.gast", fromlist=["to_json"]).to_json(rules[0][2])]],
+                                "grammar_text": text, "rule": "r", "input": call[1], "start_pos": 0, "mode": which,
+                                "config": cfg if isinstance(cfg, str) else list(cfg)}
+                        ctx.violation(f"skip-matrix:{cfg_name(cfg)}:{which}:{cls}", case,
+                                      f"baseline {str(b)[:200]} vs [{cfg_name(cfg)}] {str(g)[:200]}")
+            ctx.nt_extra += 1
+    ctx.exhaustive.update({"complete": True, "skip_matrix_stop_lists": len(lists), "skip_matrix_inputs": len(inputs)})
+
+
 def shards(tier: str):
     return [{"idx": i} for i in range(16)]
 
@@ -157,6 +208,7 @@ def run_shard(ctx: Ctx, spec):
                             "inputs": [i for i, _ in case["inputs"]][:5]})
 
         t()
+        run_skip_matrix(ctx, modes, spec["idx"])
     finally:
         modes.close()
         for w in _singles.values():
